@@ -7,7 +7,7 @@ from .c15 import STEER, CONFIGS, kotlin_error_attrs
 
 RULE = ("Hypothesis-generated programs (1-3 bridge modules) per backend; four metamorphic variants each, compared byte-wise over whole "
         "output directories: R1 same input twice in fresh processes; R2 random permutation of module order and of item order inside modules "
-        "(impls stay after their type, impls of one type keep their relative order); R3 insertion of a type nothing references "
+        "(impls stay after their type, impls of one type keep their relative order); R3 insertion of a type nothing references (R3d: the same type disabled for every backend: no file at all may change) "
         "(every pre-existing per-type file must be unchanged, aggregate index files excluded, the new type's files must exist); "
         "R4 insertion of non-bridge items (functions, same-named types, modules, consts, macros). A case = one (program, backend, relation). "
         "Non-trivial: program with >= 4 types and, for R2, a non-identity permutation. Distinct = distinct (program, backend, relation, variant).")
@@ -232,7 +232,12 @@ def worker(widx, seed, params):
         backend, prog, perm, ins, uname, nb, twin = case
         cfg = CONFIGS[backend][0]
         ntypes = sum(1 for _ in ir.all_items(prog))
-        variants = [("R1", prog), ("R2", perm), ("R3", ins), ("R4", nb)] + ([("R3b", twin)] if twin is not None else [])
+        # R3d: the same unreferenced type, switched off for every backend: nothing at all may change (aggregate files included)
+        insd = copy.deepcopy(ins)
+        for _, it_ in ir.all_items(insd):
+            if it_["name"] == uname:
+                it_["attrs"] = list(it_["attrs"]) + ["#[diplomat::attr(*, disable)]"]
+        variants = [("R1", prog), ("R2", perm), ("R3", ins), ("R3d", insd), ("R4", nb)] + ([("R3b", twin)] if twin is not None else [])
         for rel, var in variants:
             identity = rel == "R2" and ir.render_program(perm) == ir.render_program(prog)
             msg = relation_check(art, work, backend, cfg, prog, var, rel, uname)
